@@ -24,7 +24,7 @@ C03G == Grammar(
     "(let [e _1] (try _2 (catch e e) (finally (trace! e))))">>,
   <<"(try _1 (catch e _2) (finally _3))">>)
 
-C12CtxText == "(def x 7) (def xs (list 1 2)) (def v [3 4]) (def em ()) " \o
+C12CtxText == "(def x 7) (def xs (list 1 2)) (def v [3 4]) (def em ()) (def w '(5 6 7)) " \o
            "(defmacro m1 (fn [a] `(list ~a ~a))) " \o
            "(defmacro m2 (fn [a & r] `(if ~a (do ~@r) nil))) " \o
            "(defmacro m3 (fn [a] (list 'quote a))) " \o
@@ -39,8 +39,8 @@ C12CtxForms == ReadAll(C12CtxText)
 
 C12GQ == Grammar(
   <<"1", "a", ":k", "\"s\"", "~x", "~@xs", "~@em", "~@v", "~(trace! x)", "~@(trace! xs)", "unquote",
-    "splice-unquote", "x", "()", "~@x">>,
-  <<"(_1)", "[_1]", "{:k _1}", "(a _1)">>,
+    "splice-unquote", "x", "()", "~@x", "~@w">>,
+  <<"(_1)", "[_1]", "{:k _1}", "(a _1)", "((_1 1) (_1 a))">>,
   <<"(_1 _2)", "[_1 _2]">>,
   <<"(_1 _2 _3)", "[_1 _2 _3]">>)
 
